@@ -31,8 +31,9 @@ import (
 var env *stackenv.Env
 
 // Action of a peer for one exchange.
-//   prompt: answer at once          slow: answer after 1 s (in time)
-//   late:   answer after Ms > 5000  drop: never answer
+//
+//	prompt: answer at once          slow: answer after 1 s (in time)
+//	late:   answer after Ms > 5000  drop: never answer
 type Action struct {
 	Kind string `json:"kind"`
 	Ms   int    `json:"ms,omitempty"`
